@@ -419,6 +419,7 @@ class ApplicationJobs:
         # attributes
         self.planned_jobs: ApplicationJobs.PlannedJobs = jobs
         self.current_jobs: ApplicationJobs.CommandList = []
+        self.processing: bool = False
 
     # miscellaneous methods
     def __repr__(self):
@@ -499,7 +500,7 @@ class ApplicationJobs:
         """
         self.logger.trace(f'ApplicationJobs.in_progress: planned_jobs={self.planned_jobs}'
                           f' current_jobs={self.current_jobs}')
-        return len(self.planned_jobs) > 0 or len(self.current_jobs) > 0
+        return self.processing or len(self.planned_jobs) > 0 or len(self.current_jobs) > 0
 
     def before(self) -> None:
         """ Special processing to be done before command sequences start.
@@ -521,9 +522,15 @@ class ApplicationJobs:
             # trigger application jobs
             # do NOT use a list comprehension as pending requests will not be considered in instance load
             # process the jobs one by one and insert them in current_jobs asap
-            for command in group:
-                if self.process_job(command):
-                    self.current_jobs.append(command)
+            # a command that cannot be processed is failed through a forced state event that re-enters Commander.next
+            # the application job must not be seen as completed while the rest of the group is still to be processed
+            self.processing = True
+            try:
+                for command in group:
+                    if self.process_job(command):
+                        self.current_jobs.append(command)
+            finally:
+                self.processing = False
             self.logger.trace(f'ApplicationJobs.next: current_jobs={self.current_jobs}')
             # recursive call in the event where there's already nothing left to do
             self.next()
